@@ -52,6 +52,10 @@ func c05Monitor(m *vk.Meta, in mgrIn, out mgrOut) {
 		crash = ns.DaemonState != nil && ns.DaemonState.CrashRecovery
 		return !ns.PingOk || ns.IsFileSystemReadonly, ns.IsFileSystemReadonly, crash
 	}
+	mgrHost := fmt.Sprintf("h%d", len(in.Nodes))
+	if in.MgrHost > 0 && in.MgrHost <= len(in.Nodes) {
+		mgrHost = fmt.Sprintf("h%d", in.MgrHost)
+	}
 	for k, st := range out.Steps {
 		filed := false
 		for _, e := range st.Trans {
@@ -115,7 +119,7 @@ func c05Monitor(m *vk.Meta, in mgrIn, out mgrOut) {
 					n := st.WorldBefore[h]
 					// replicating = both threads running, and the receiver is connected (with its source gone it is "Connecting")
 					if n.Up && n.Chan != nil && n.Chan.IO && n.Chan.SQL {
-						if src, ok := st.WorldBefore[n.Chan.Source]; ok && src.Up {
+						if src, ok := st.WorldBefore[n.Chan.Source]; ok && src.Up && !(h == mgrHost && st.CutNow[n.Chan.Source]) { // the replica on the manager's own host shares the manager's network
 							repl++
 						}
 					}
@@ -235,6 +239,11 @@ func c05Gen(o *vk.Out) mgrIn {
 	case 5:
 		in.Nodes[0].Health = "pingfail" // reachable for the manager, its own mysync says dead
 	}
+	if r.Intn(8) == 0 {
+		// dead (or unreachable) with the crash flag in its record: only resetup_crashed_hosts lifts the delay and the replication gate
+		in.Nodes[0].Health = "crashfail"
+		in.Nodes[0].Down = r.Intn(2) == 0
+	}
 	if r.Intn(3) == 0 {
 		in.Last = &mgrLast{Cause: []string{CauseAuto, CauseAuto, CauseManual}[r.Intn(3)], FinishedAgo: []int{10, 700, 4000}[r.Intn(3)], NoResult: r.Intn(12) == 0}
 	}
@@ -262,7 +271,7 @@ func c05Gen(o *vk.Out) mgrIn {
 		case 1:
 			in.Events = append(in.Events, mgrEvent{At: k, Kind: "up", Host: 1}, mgrEvent{At: k, Kind: "health", Host: 1, Health: ""})
 		case 2:
-			in.Events = append(in.Events, mgrEvent{At: k, Kind: "health", Host: 1, Health: []string{"", "pingfail", "missing", "fsro", "crash"}[r.Intn(5)]})
+			in.Events = append(in.Events, mgrEvent{At: k, Kind: "health", Host: 1, Health: []string{"", "pingfail", "missing", "fsro", "crash", "crashfail"}[r.Intn(6)]})
 		case 3:
 			in.Events = append(in.Events, mgrEvent{At: k, Kind: "restart"})
 		case 4:
